@@ -686,6 +686,12 @@ func (ex *Exec) sliceOp(fr *Frame, i *ssa.Slice) Value {
 			if i.Low == nil && i.High == nil {
 				return a
 			}
+			if a.Blob.Pack != nil && i.High == nil && i.Max == nil {
+				lo := get(i.Low, 0)
+				np := *a.Blob.Pack
+				np.skip += lo
+				return Slice{Blob: &Blob{Pack: &np, Empty: ex.tf.False}}
+			}
 			panic(engineErr("slicing a marshalled message"))
 		}
 		lo, hi, mx := get(i.Low, 0), get(i.High, a.Len), get(i.Max, a.Cap)
